@@ -1,6 +1,13 @@
 """Per-property configuration of the driver (bin/check)."""
 
 PROPS = {
+    "C01": {
+        "test": "TestVerif_C01", "level": "exploration",
+        "rule": "case = <agent configuration (BESS / BESS+alloc+heartbeats / UP4 / datapath down), protocol state (first datagram of a new peer, associated, session, session without PDRs, agent request outstanding), seed message (one valid instance of every dispatched type in several session shapes), 1-3 mutation operators at a random IE path or on the header | truncation at a byte offset | random bytes>; after each case: heartbeat barrier, <=1 reply, valid establishment+deletion on the same socket and (every 4th case) on another association; distinct = distinct <seed, operator@IE-type-path..., state> whose mutant still decodes with go-pfcp (i.e. reaches the dispatcher)",
+        "shards": {"quick": 12, "thorough": 16}, "timeout": {"quick": 900, "thorough": 20000},
+        "floors": {"quick": {"mutants_decodable": 5000, "probes_same_assoc": 5000}, "thorough": {"mutants_decodable": 200000}},
+        "wedge_patterns": [r"pfcpiface\.\(\*PFCPConn\)\.\w+", r"pfcpiface\.\(\*PFCPNode\)\.handleNewPeers"],
+    },
     "C10": {
         "test": "TestVerif_C10", "level": "exploration",
         "rule": "scenario = {0..n associations (some >100)} x {0-3 sessions} x trigger per association {release, silence->read timeout(+heartbeat failure), unanswered heartbeats, live} x requests in flight x datapath reply delay x PFCPIface.Stop() at a drawn offset (+-3.5 ms around the coinciding triggers), fresh agent per scenario, plus a 'refresh' family (association ends without Stop, same address:port associates afresh, bystander association checked); distinct = distinct interleaving signatures (datapath, heartbeat on/off, delay, stop offset in ms, multiset of per-association <trigger, order relative to Stop, release answered?, sessions>)",
